@@ -556,4 +556,51 @@ theorem copyCtor_spec (P : Params) (n0 : Nat) (S : Nat → Bool) (hS : ∀ b, n0
     have := cnt_eq_zero_imp h0' j hj
     exact ⟨fun ht => (by rw [this] at ht; cases ht), fun _ => F.rk j⟩
 
+/-! ### `get` (read only) -/
+
+theorem getLoop_succ (k v s size kv f probe : Nat) : getLoop k v s size kv (f + 1) probe = (do
+    let st ← readWord s probe
+    if st > 0 then
+      let kk ← read k probe
+      if kk = kv then readWord v probe else getLoop k v s size kv f ((probe + 1) % size)
+    else pure 0) := rfl
+
+theorem getLoop_spec (S : Nat → Bool) (k v s n kv : Nat) (h : Heap) (T : Tbl true [] h k v s n) :
+    ∀ f probe, probe < n → SafeF S h (getLoop k v s n kv f probe h) (fun _ h' => h' = h) := by
+  intro f
+  induction f with
+  | zero => intro probe _; exact SafeF.exc _
+  | succ f ih =>
+    intro probe hp
+    rw [getLoop_succ]
+    obtain ⟨cs, ecs, ews, _⟩ := T.cs.cell_st hp
+    apply step_readWord ecs
+    by_cases hw : cs.word > 0
+    · rw [if_pos hw]
+      obtain ⟨x, hx⟩ := (T.slot probe hp (by simp)).live_of_pos (by omega)
+      obtain ⟨ck, eck, estk, _⟩ := cell_of_stAt_ne_raw (h := h) (b := k) (i := probe) (by rw [hx]; simp)
+      apply step_read eck (by rw [estk, hx])
+      by_cases hkk : x = kv
+      · rw [if_pos hkk]
+        obtain ⟨cv, ecv⟩ := T.cv.cell hp
+        apply SafeF.last
+        apply step_readWord ecv
+        exact SafeF.pure rfl
+      · rw [if_neg hkk]
+        exact ih _ (Nat.mod_lt _ (by omega))
+    · rw [if_neg hw]
+      exact SafeF.pure rfl
+
+theorem get_spec (P : Params) (n0 : Nat) (S : Nat → Bool) (m : Map) (kv : Nat) (h0 : Heap) :
+    TripleS n0 S (fun h => h = h0 ∧ Usable P h m) (get P m kv) (fun _ h' => h' = h0) := by
+  intro h hn ⟨he, hu⟩
+  subst he
+  obtain ⟨k, v, s, hk, hv, hs, _, T, _⟩ := Usable.ptrs hu
+  unfold get
+  rw [hk, hv, hs]
+  apply step_deref
+  apply step_deref
+  apply step_deref
+  exact getLoop_spec S k v s (2 ^ m.lgCur) kv h T _ _ (Nat.mod_lt _ (Nat.pow_pos (by omega)))
+
 end DS.Life.Fi
